@@ -166,7 +166,7 @@ PROPS = {
         stages=[dict(driver='drv_fields', flavour='asan')],
         rule='cases = (class, field, background) with every in-range value written (exhaustive for fields <= 8 bits, for <= 16 bits a 600-value lattice in quick and exhaustive in thorough, boundary + walking bits + 64 random for wider fields, special and random finite values for floats) + random sequences of 8..64 setter calls on one object; every setter call is one evaluation. distinct_nontrivial = distinct (class, field, background in {default, all-zero, all-ones, random}, value class in {0, max, single-bit, other}) tuples.',
         assumptions=COMMON_ASSUME,
-        floors=dict(quick={'distinct_nontrivial': 2000, 'feat:fields_exercised': 175, 'setter_sequences': 3000}, thorough={'distinct_nontrivial': 2500, 'feat:fields_exercised': 175}),
+        floors=dict(quick={'distinct_nontrivial': 2000, 'feat:fields_exercised': 175, 'setter_sequences': 3000}, thorough={'distinct_nontrivial': 2000, 'feat:fields_exercised': 175}),
     ),
     'C12': dict(
         technique='ASan+UBSan run comparing API writes and getter reads with an independent layout table (byte offset, width, bit mask, big-endian) on raw object images; header sizes and reserved bits of default objects',
@@ -175,7 +175,7 @@ PROPS = {
         stages=[dict(driver='drv_fields', flavour='asan')],
         rule='cases = (class, field, background) with every in-range value written (exhaustive for fields <= 8 bits, for <= 16 bits a 600-value lattice in quick and exhaustive in thorough, boundary + walking bits + 64 random for wider fields, special and random finite values for floats) + random sequences of 8..64 setter calls on one object; every setter call is one evaluation. distinct_nontrivial = distinct (class, field, background in {default, all-zero, all-ones, random}, value class in {0, max, single-bit, other}) tuples.',
         assumptions=COMMON_ASSUME,
-        floors=dict(quick={'distinct_nontrivial': 2000, 'feat:fields_exercised': 175, 'size_checks': 20, 'reserved_checks': 16}, thorough={'distinct_nontrivial': 2500, 'feat:fields_exercised': 175}),
+        floors=dict(quick={'distinct_nontrivial': 2000, 'feat:fields_exercised': 175, 'size_checks': 20, 'reserved_checks': 16}, thorough={'distinct_nontrivial': 2000, 'feat:fields_exercised': 175}),
     ),
     'C13': dict(
         technique='ASan+UBSan run of setData / header-setter sequences per payload class; raw bytes compared with the wire model\'s serialisation of a shadow of the logical content; own validator and decoder must accept',
